@@ -143,13 +143,20 @@ def world(wid, seed):
 _ELECTIONS = {}
 
 
-def _election(eseed, district=False):
-    key = (eseed, district)
+def _election(eseed, district=False, big=False, n_units=None):
+    key = (eseed, district, big, n_units)
+    if big and key not in _ELECTIONS:
+        # one state with several thousand precincts: more than a thousand gaussian calibration units in one group (whatever
+        # is done to very large groups - subsampling, chunking - must be seed-derived too: seeded change C12_F)
+        pre, cur = synth.make_election(n=4800, states=("AA",), seed=eseed, frac_reporting=0.75)
+        _ELECTIONS[key] = (synth.with_margin_features(pre), cur)
     if key not in _ELECTIONS:
         # district=False is the election of the C12 worlds: large enough that every state / classification holds at
         # least ten gaussian calibration units (30 % of the reporting units), so that the per-group gaussian models - and
         # whatever seeds their resampling - are really used (seeded change C12_C); the C13 district election stays small
         n, frac = (48, 0.6) if district else (132, 0.85)
+        if n_units:
+            n = n_units
         pre, cur = synth.make_election(n=n, states=STATES, seed=eseed, frac_reporting=frac, district=district)
         # degenerate baselines (a precinct where one party, or nobody, had votes last time): how such a unit is
         # categorised must not depend on which estimands a request names (seeded change C13_C)
@@ -192,7 +199,7 @@ def run_history(w, hist):
     """Execute one TLC history on the real client.  Returns one observation per call: tok + per-table digests."""
     from elexmodel.client import ModelClient
 
-    pre, cur = _election(w["eseed"])
+    pre, cur = _election(w["eseed"], big=bool(w.get("big")))
     # the caller's baseline frame: ONE object for the whole history (every call is handed the same frame, as a caller
     # that loads its baseline data once would do); whatever a run does to it must not change what a later run returns
     pre = pre.copy()
@@ -442,7 +449,9 @@ def run_request(job):
     install_recorder()
     req, eseed = job["req"], job["eseed"]
     district = bool(req["district"])
-    pre, cur = _election(eseed, district)
+    # gaussian requests run on a larger election: with a few hundred training units two interval levels within the same
+    # percent (0.9 and 0.909) have different quantile regressions, so a cache keyed too coarsely shows (seeded change C13_E)
+    pre, cur = _election(eseed, district, n_units=(420 if req["estimator"] == "gaussian" and not district else None))
     office, gut = ("H", "precinct-district") if district else ("G", "precinct")
     group = f"{req['estimator']}|{office}|{eseed}"
     rec = {"group": group, "req": req, "events": [], "tables": {}, "cells": {}, "status": "ok", "eseed": eseed}
